@@ -162,7 +162,7 @@ namespace RdfModel.TtlDoc
 theorem next_err (C : Cfg) (e : End) (st : St) (h : st.err.isSome = true) :
     next C e st = .no { st with stmts := st.stmts.drop 1 } := by
   unfold next
-  show nextLoop C e (({ st with stmts := st.stmts.drop 1 } : St).cost + 9 + 1) none _ = _
+  show nextLoop C e (({ st with stmts := st.stmts.drop 1 } : St).cost + 1) none _ = _
   unfold nextLoop
   simp [h]
 
